@@ -380,7 +380,17 @@ def light_start():
     return t, {"elements": [["RED", 2], ["GREEN", 3], ["YELLOW", 1]], "offset": 1}
 
 
+def light_start_empty():
+    # a light that is constructed with a cycle that has no elements yet (a valid way to build one step by step); the elements are assigned later
+    from commonroad.scenario.traffic_light import TrafficLight, TrafficLightCycle
+    import numpy as np
+    return TrafficLight(11, np.array([1.0, 1.0]), TrafficLightCycle([], time_offset=1)), {"elements": [], "offset": 1}
+
+
 def light_enabled(model):
+    if not model.get("elements", True):
+        # nothing to ask a cycle without elements; it can be given elements in the three public ways
+        return [["cycle_elements=", [["GREEN", 1], ["RED", 4]]], ["light.cycle=", [["RED", 1], ["GREEN", 2]], 3], ["elements.append", ["RED_YELLOW", 2]], ["time_offset=", 4]]
     return [["q"], ["cycle_elements=", [["GREEN", 1], ["RED", 4]]], ["cycle_elements=", [["RED", 2], ["GREEN", 3], ["YELLOW", 1], ["RED_YELLOW", 2]]],
             ["element.duration=", 0, 5], ["element.duration=", 1, 1], ["element.state=", 0, "GREEN"], ["time_offset=", 0], ["time_offset=", 4], ["time_offset=", 13], ["time_offset=", -3],
             ["light.cycle=", [["YELLOW", 2], ["RED", 2]], 3], ["elements.append", ["INACTIVE", 2]]]
@@ -448,6 +458,8 @@ def light_canon(t, model):
 
 def light_check(t, model, model2, op, obs, pre):
     out = []
+    if obs[0] == "ok" and not model2["elements"]:
+        return out          # still without elements: no state to ask for
     if obs[0] != "ok":
         out.append((f"C11|traffic-light|{op[0]}|{obs[0]}", f"{op}: {obs[1]}"))
         return out
@@ -597,10 +609,11 @@ SUBJECTS = {
     "obstacle-offcentre": (obst_start("ks", ("rect", 4.0, 2.0, 1.25, 0.5, 0.0)), obst_ops("ks"), obst_step("ks"), obst_canon, obst_check),
     "network": (net_start, net_enabled, net_step, net_canon, net_check),
     "traffic-light": (light_start, light_enabled, light_step, light_canon, light_check),
+    "traffic-light-built-empty": (light_start_empty, light_enabled, light_step, light_canon, light_check),
     "scenario": (scen_start, scen_enabled, scen_step, scen_canon, scen_check),
 }
-DEPTH = {"quick": {"obstacle-ks": 3, "obstacle-pm": 3, "obstacle-offcentre": 3, "network": 3, "traffic-light": 4, "scenario": 3},
-         "thorough": {"obstacle-ks": 4, "obstacle-pm": 4, "obstacle-offcentre": 4, "network": 4, "traffic-light": 5, "scenario": 4}}
+DEPTH = {"quick": {"obstacle-ks": 3, "obstacle-pm": 3, "obstacle-offcentre": 3, "network": 3, "traffic-light": 4, "traffic-light-built-empty": 3, "scenario": 3},
+         "thorough": {"obstacle-ks": 4, "obstacle-pm": 4, "obstacle-offcentre": 4, "network": 4, "traffic-light": 5, "traffic-light-built-empty": 4, "scenario": 4}}
 
 
 def describe(tier):
